@@ -961,3 +961,79 @@ Proof.
   destruct (N.leb_spec (a_seen r) now) as [L|L]; cbn [andb]; [|reflexivity].
   destruct (N.ltb_spec now (a_seen r + expiry cfg)), (N.ltb_spec (now - a_seen r) (expiry cfg)); try reflexivity; lia.
 Qed.
+
+(* ------------------------------------------------------------------ the two path fields of the store *)
+Lemma fs_get_set fs p c q : fs_get (fs_set fs p c) q = if String.eqb p q then Some c else fs_get fs q.
+Proof.
+  induction fs as [|[k c0] t IH]; cbn.
+  - destruct (String.eqb p q); reflexivity.
+  - destruct (String.eqb_spec k p) as [->|NE]; cbn.
+    + destruct (String.eqb p q); reflexivity.
+    + rewrite IH. destruct (String.eqb_spec k q) as [->|NE2].
+      * destruct (String.eqb_spec p q) as [->|]; [congruence | reflexivity].
+      * reflexivity.
+Qed.
+
+(* every constructor leaves the two copies of the path equal *)
+Lemma ctor_paths_agree_lemma :
+  (forall p, st_cache_path (store_new p) = st_cfg_path (store_new p)) /\
+  (forall dflt cp pa fs, let st := fst (store_from_peers_args dflt cp pa fs) in st_cache_path st = st_cfg_path st).
+Proof. split; reflexivity. Qed.
+
+Lemma store_add_paths cfg now st raw :
+  st_cache_path (store_add cfg now st raw) = st_cache_path st /\ st_cfg_path (store_add cfg now st raw) = st_cfg_path st /\
+  st_disable (store_add cfg now st raw) = st_disable st.
+Proof. repeat split. Qed.
+
+(* with equal paths: what a flush writes is what a load through the same store (or one with the same paths)
+   reads next, and no other file changes *)
+Lemma flush_then_load_lemma cfg now st fs :
+  st_cache_path st = st_cfg_path st -> st_disable st = false ->
+  let r := store_flush cfg now st fs in
+  exists out, fs_get (snd r) (st_cfg_path st) = Some out /\ bounded cfg out /\
+              store_load cfg now (fst r) (snd r) = Some (perform_cleanup cfg now out) /\
+              forall q, q <> st_cache_path st -> fs_get (snd r) q = fs_get fs q.
+Proof.
+  intros P D. unfold store_flush. rewrite D. cbn [fst snd]. eexists. split; [|split; [|split]].
+  - rewrite fs_get_set, P, String.eqb_refl. reflexivity.
+  - apply bounded_try_remove. intros p l Hin. apply In_perform_cleanup in Hin.
+    destruct Hin as (l0 & _ & _ & L & _). exact L.
+  - unfold store_load. cbn [st_cfg_path]. rewrite fs_get_set, P, String.eqb_refl. reflexivity.
+  - intros q NE. rewrite fs_get_set. destruct (String.eqb_spec (st_cache_path st) q); [congruence | reflexivity].
+Qed.
+
+(* nothing in memory is missing from the merged cache the flush cleans and writes (C18: merge loses nothing) *)
+Lemma flush_merges_memory_lemma cfg now st fs d p x :
+  st_disable st = false -> fs_get fs (st_cfg_path st) = Some d ->
+  has_addr (st_mem st) p x \/ has_addr (perform_cleanup cfg now d) p x ->
+  has_addr (cache_sync (st_mem st) (perform_cleanup cfg now d)) p x.
+Proof. intros _ _ H. apply sync_loses_nothing_lemma. exact H. Qed.
+
+(* the override applied after construction: the flush merges with one file and overwrites another, and a store
+   constructed the same way does not load the flushed peers back *)
+Lemma late_override_refuted_lemma :
+  exists cfg now pa fs raw,
+    let b := store_from_peers_args_late "default" (Some "config"%string) pa fs in
+    let st := store_add cfg now (fst b) raw in
+    let r := store_flush cfg now st (snd b) in
+    st_cache_path st <> st_cfg_path st /\
+    (* the custom-dir file, which is the one read, is unchanged; the config's file is overwritten *)
+    fs_get (snd r) "custom" = fs_get fs "custom" /\ fs_get (snd r) "config" <> fs_get fs "config" /\
+    (* reload through an identically constructed store misses the peer that was added *)
+    match store_load cfg now (fst (store_from_peers_args_late "default" (Some "config"%string) pa (snd r))) (snd r) with
+    | Some c => lookup c pA = None
+    | None => False
+    end /\
+    (* while the real constructor gives it back *)
+    let b' := store_from_peers_args "default" (Some "config"%string) pa fs in
+    let r' := store_flush cfg now (store_add cfg now (fst b') raw) (snd b') in
+    match store_load cfg now (fst (store_from_peers_args "default" (Some "config"%string) pa (snd r'))) (snd r') with
+    | Some c => lookup c pA <> None
+    | None => False
+    end.
+Proof.
+  exists ex_cfg, 1000, {| pa_first := false; pa_local := false; pa_dir := Some "custom"%string |},
+    [("config"%string, [(pB, [mk 6 1 pB 1 0 990])]); ("custom"%string, [("peerC"%string, [mk 7 1 "peerC" 1 0 990])])],
+    [Ip4 1; Udp 1; QuicV1; P2p pA].
+  cbn zeta. repeat split; try (vm_compute; congruence); vm_compute; discriminate.
+Qed.
